@@ -26,7 +26,7 @@ CONFIGS_STANDIN = ["selector-opt", "selector-noopt", "cplex-noopt", "cplex-noopt
 
 
 def budget(tier):
-    return 220 if tier == "quick" else 4000
+    return 700 if tier == "quick" else 6000
 
 
 def gen(rng, index, tier):
@@ -35,7 +35,7 @@ def gen(rng, index, tier):
     raw, meta = lib.gen_dataset(rng, nmax=nmax, mmax=5, family=fam)
     standin = rng.random() < 0.5
     config = rng.choice(CONFIGS_STANDIN if standin else CONFIGS_ABSENT)
-    case = {"dataset": raw, "scheme": partcommon.sparse_scheme(rng), "meta": meta, "config": config}
+    case = {"dataset": raw, "scheme": partcommon.sparse_scheme(rng, meta["family"]), "meta": meta, "config": config}
     if standin:
         case["cplex"] = "standin"
     return case
